@@ -21,6 +21,11 @@ CHECKS = {
                 "greedy policy validity; shift / monotonicity / contraction laws on the implementation's outputs.",
                 "A sweep is observed through documented attributes (values, gamma, solve(1)); self-checked per case.",
                 "Hypothesis generated MDPs and value vectors, numpy reference backup + metamorphic relations", "2/C02"),
+    "C03": _mdp("Generated MDPs (1..200 states) x solver x 2-3 batch sizes executed by persistent workers under 1, 2, 3, 4 and 8 emulated "
+                "devices; every layout compared with the numpy reference and with every other layout (values after k sweeps, convergence "
+                "iteration, gain, history, exact value of the returned policy; semi-async: error bound for every partition).",
+                "Emulated host devices stand in for accelerators; borderline stopping sweeps are dropped.",
+                "Hypothesis generated MDPs x layouts, cross-layout differential + numpy reference", "2/C03"),
     "C04": _mdp("Generated unichain aperiodic MDPs (by construction or brute-force verified): gain, policy gain, optimality-equation "
                 "residual and n-independent boundedness of the relative values against an exact average-reward oracle.",
                 "Unichain by construction/enumeration; Howard PI cross-checked by policy enumeration on small cases.",
@@ -41,6 +46,22 @@ CHECKS = {
                 "documented stopping rule with its own sweep counter, plus a twin solver given the summed limit.",
                 "Relative VI compared modulo an additive constant; PI judged by the twin and at-most-k clauses; known finding F10 excluded and counted.",
                 "Hypothesis generated call histories, model-based oracle + split/single-call differential", "2/C08"),
+    "C09": dict(category="fault_enumeration",
+                text="Generated interruption chains (every segment in a fresh process: restore from the directory, solve, exit) over "
+                     "solvers x problems x frequency x retention x sync/async x both routes, compared bit for bit with one uninterrupted "
+                     "process without checkpointing; thorough tier enumerates every interruption iteration of a fixed instance per solver.",
+                note="Interruption = orderly process exit after pending writes finished (kills are C11's subject); same machine and JAX build.",
+                technique="Hypothesis generated interruption chains in fresh processes, differential against an uninterrupted run; exhaustive over k for fixed instances (thorough)",
+                design="2/C09"),
+    "C10": _mdp("Generated solver x problem x checkpoint settings x step x override subsets: a fresh process restores and is compared, "
+                "field by field and bit for bit, with the state snapshotted when save(step) was called; configuration equality, override "
+                "effects, byte-identity of the original directory, and the documented error paths.",
+                "Snapshots are taken by wrapping the public save(); states cross processes as JSON (exact float round-trip).",
+                "Hypothesis generated save/restore round-trips across processes, snapshot oracle + directory content hashes", "2/C10"),
+    "C12": _mdp("Generated histories (frequency, retention, sync/async, solve() calls around multiples of f and around convergence, "
+                "mid-sequence restores into the same or a new directory) judged against a cadence/retention model and per-step content.",
+                "Iteration ends are taken from the solver; known finding F9 (restore of an older step into the same directory) is excluded and counted.",
+                "Hypothesis generated call/restore histories, model-based oracle (retention model) + per-step content round-trip", "2/C12"),
     "C13": _mdp("Generated valid parameterisations of the four shipped problems; the probability of every state x action x event "
                 "is enumerated completely per parameterisation and checked for finiteness, sign and row sums.",
                 "Parameter space sampled; table enumeration complete per sample.",
@@ -61,6 +82,11 @@ CHECKS = {
                 "error path (ValueError naming the pair) and solve-both-ways agreement.",
                 "Reads the named pair from the message format 'state i, action j'.",
                 "Hypothesis generated problems and fault injection (mass defect), numpy accumulation + exact-solve differential", "2/C17"),
+    "C20": _mdp("Generated solver class x problem x parameter values on and around every documented boundary, optionally one "
+                "out-of-domain field: three construction routes must agree (configuration and behaviour), invalid sets must be rejected "
+                "with ValueError/TypeError, solve must complete in float64; two fresh processes compare construction orders.",
+                "NaN not generated; known finding F7 (float32 tables of a problem created before 64-bit mode) excluded and counted.",
+                "Hypothesis generated boundary-value configurations, route differential + exception-type oracle + fresh-process precision differential", "2/C20"),
     "C18": dict(
         category="exploration",
         text="Complete enumeration of a bounded box of (n_states, max_batch_size, devices) plus generated large sizes, "
